@@ -179,6 +179,8 @@ class ExtClass:
         self.__name__ = name
         self.methods = methods or {}
         self.field_types = fields or {}
+        self.dynamic = None  # callable(name) -> ExtMethod | None : attribute-driven dispatch (__getattr__)
+        self.stable_fields = ()
 
     def __repr__(self):
         return f"Ext<{self.__name__}>"
